@@ -88,8 +88,10 @@ void harness (void)
   def_grammar[0] = (int) sx_param ("g0", 2); def_grammar[1] = (int) sx_param ("g1", 9);
   for (i = 0; i < 2; i++)
     { /* a sentence, a non-sentence and two more sentences of each good definition */
-      static const char *const in3[4] = { "a+a*a", "a+*a", "a*a+a", "a" }, *const in10[4] = { "a;a;", "a;ba;", "a;", "a;a;a;" }, *const in7[4] = { "abba", "abab", "baab", "bb" };
-      const char *id = catalogue[def_grammar[i]].id; const char *const *in = strcmp (id, "G3") == 0 ? in3 : strcmp (id, "G10") == 0 ? in10 : in7;
+      static const char *const in3[4] = { "a+a*a", "a+*a", "a*a+a", "a" }, *const in10[4] = { "a;a;", "a;ba;", "a;", "a;a;a;" }, *const in7[4] = { "abba", "abab", "baab", "bb" },
+        *const in9[4] = { "(a+a)+a", "(a++a)+a", "a+a", "(a)" }, *const in42[4] = { "piqrisviw", "pisviw", "minyizviwtiuris", "rijs" },
+        *const in43[4] = { "aiobipciqdireisfitgiuhivkiwlixmiyniz", "aiz", "nizmiylixkiw", "hijv" };
+      const char *id = catalogue[def_grammar[i]].id; const char *const *in = strcmp (id, "G3") == 0 ? in3 : strcmp (id, "G10") == 0 ? in10 : strcmp (id, "G9") == 0 ? in9 : strcmp (id, "G42") == 0 ? in42 : strcmp (id, "G43") == 0 ? in43 : in7;
       int k;
       sx_assume (in != in7 || strcmp (id, "G7") == 0);
       for (k = 0; k < 4; k++) inputs[i][k] = in[k];
